@@ -117,6 +117,14 @@ func init() {
 			e["held"], e["heldj"], e["heldp"] = S(h1), S(h2), S(h3)
 		}
 		e["str"], e["pretty"], e["html"] = S(n.String()), S(n.PrettyString()), S(string(n.PrettyHTML()))
+		{
+			// strings the caller keeps while other sizes are rendered
+			hs, hp, hh := n.String(), n.PrettyString(), n.PrettyHTML()
+			oth := n/7 + 4097
+			_, _, _ = oth.String(), oth.PrettyString(), oth.PrettyHTML()
+			_ = (oth + 1).String()
+			e["helds"], e["heldps"], e["heldh"] = S(hs), S(hp), S(string(hh))
+		}
 		f2, _ := size.DefaultFormatter(nil, n, size.FormatHTML)
 		e["f2"] = S(f2)
 		e["bs"] = S(n.BytesString())
